@@ -29,6 +29,7 @@ def parseStmt (locked : Bool) (s : String) : Option Stmt :=
   match s.front with
   | 'N' => match tl.splitOn "/" with
     | [ds] => match nats ds with | some [d, sc] => some (connectStmt locked d sc) | _ => none
+    | ["-", _, lk] => some (connectNone (if lk == "-" then none else lk.toNat?))
     | [ds, flags, lk] => match nats ds with
       | some [d, sc] =>
         let cd := (flags.take 1).toString == "1"
